@@ -19,19 +19,31 @@ LEVEL = 'exploration'
 RULE = ('part A: exhaustive over the 127 non-empty subsets of the seven concrete sources '
         '(call kw, template vars, last client, first client, call mapping, ctor kw, ctor mapping) '
         'x every assignment of {plain, callable, template} to the defining sources (16383), plus '
-        'falsy winners (0, empty string, None, falsy callable) and seeded mixed assignments, each probed by '
-        'name, entity, missing=, if, let and expression in HTML (and by name in plain HTML / EPFS '
-        'String); part B: every nesting of {in, in mapping, with, with only, with mapping, let name, '
-        'let expr, if, try-except} to depth 2 (quick) / 3 (thorough) x bound value kind x the source '
-        'delivering the base namespace, with a probe group before / inside / after every block and '
-        'sub-template calls at every probe point. distinct = distinct (subset, kinds, variant) or '
-        '(nest, value kind, base source) tuples; a part-A case is non-trivial when at least two '
-        'sources define the name or the winner is callable / template / falsy')
+        'falsy winners (0, empty string, None, falsy callable, callable returning a false value) and '
+        'seeded mixed assignments, each probed by name, entity, missing=, if/elif/else, unless, let and '
+        'expression in HTML (and by name in plain HTML / EPFS String); every template object is called '
+        'again with the top call-level source dropped and once more in full; part H: histories of calls '
+        'on ONE template object (all ordered pairs of the 16 call-level subsets as S1,S2,S1 x ctor '
+        'sources x template-variable mode none/bystander/before/between, plus seeded histories of 3-8 '
+        'calls with var() in between), every call compared with the model and _vars / defaults / the '
+        "caller's mapping / client objects checked unchanged; part B: every nesting of {in, in mapping, "
+        'with, with only, with mapping, let name, let expr, if, if-else (false), elif, unless, '
+        'try-except} to depth 2 (quick) / 3 (thorough) x bound value kind x the source delivering the '
+        'base namespace, with a probe group before / inside / after every block and sub-template calls '
+        'at every probe point, each nest also left through an exception (a raising callable or a raising '
+        'sub-template with own defaults and variables) caught by a dtml-try at every level. distinct = '
+        'distinct (subset, kinds, variant), history or (nest, value kind, base source, exception mode) '
+        'tuples; a part-A case is non-trivial when at least two sources define the name or the winner is '
+        'callable / template / falsy')
 ASSUMPTIONS = [
     'one lookup by name calls the resolved callable exactly once (call trace compared exactly)',
     '`with ... only`: that names of the enclosing namespace are hidden is not asserted '
     '(the statement only says block bindings shadow); such probes are wildcards',
-    'the sequence-name cache of dtml-in and variables set on a sub-template are not asserted',
+    'dtml-unless binds the tested name like dtml-if does (DT_If docstring: a variable is only '
+    'evaluated once in an if tag; unless is the same tag with the test inverted)',
+    'variables set on a sub-template are laid on top of its defaults (only the absence of both after '
+    'the invocation is decisive; no probed name is defined in both)',
+    'the sequence-name cache of dtml-in is not asserted',
     'ctor-mapping keys starting with "_" and client attributes starting with "_" are not used',
 ]
 SHARD_TIMEOUT = {'quick': 600, 'thorough': 3000}
@@ -40,8 +52,10 @@ NSHARDS = {'quick': 16, 'thorough': 32}
 # priority order, highest first (String.__call__ docstring + property statement)
 SOURCES = ['kw', 'vars', 'client_last', 'client_first', 'mapping', 'ctor_kw', 'ctor_map']
 KINDS3 = ['plain', 'call', 'tmpl']
-FALSY = ['zero', 'empty', 'none', 'fcall']
-NEST_KINDS = ['in', 'inmap', 'with', 'only', 'withmap', 'let', 'letx', 'if', 'try']
+FALSY = ['zero', 'empty', 'none', 'fcall', 'fret']
+NEST_KINDS = ['in', 'inmap', 'with', 'only', 'withmap', 'let', 'letx', 'if', 'ifelse', 'elif',
+              'unless', 'try']
+IFLIKE = ('if', 'ifelse', 'elif', 'unless')
 DESIGN_KINDS = ['in', 'with', 'only', 'withmap', 'let', 'if', 'try']
 BASE_SOURCES = ['kw', 'vars', 'client', 'mapping', 'ctor_kw', 'ctor_map']
 
@@ -58,6 +72,8 @@ def value_spec(src, kind):
         return U.Call('C:' + src)
     if kind == 'fcall':
         return U.Call('C:' + src, falsy=True)
+    if kind == 'fret':        # call-numbered callable whose result is false
+        return U.Call('C:' + src, ret='falsy')
     if kind == 'tmpl':
         return U.Tmpl('T:' + src,
                       [U.Text('{T:%s|' % src), U.Probe('name', 'q', True),
@@ -86,6 +102,10 @@ def ast_a(cls):
     else:
         ast += [T('L'), U.Let([('x', 'name', 'n'), ('y', 'expr', 'n')],
                               [P('name', 'x'), P('name', 'y')])]
+    # the tested name stays bound to its (called) value in every section, true or false
+    ast += [T('J'), U.If('n', [T('T'), P('name', 'n')], [T('E'), P('name', 'n')],
+                         elifs=[('q', [T('G'), P('name', 'n'), P('name', 'q')])]),
+            T('U'), U.Unless('n', [P('name', 'n')])]
     ast += [T('Q'), P('name', 'q'), T('Z'), P('miss', 'zz')]
     return ast
 
@@ -104,58 +124,74 @@ def classes():
     return _CLASSES
 
 
-def run_a(ctx, mask, kinds, pad, variant, cls, tag='grid'):
-    """One precedence configuration.  kinds: one kind per defining source (priority order)."""
-    members = [s for i, s in enumerate(SOURCES) if mask >> i & 1]
-    case = {'part': 'A', 'mask': mask, 'kinds': list(kinds), 'pad': pad, 'variant': variant,
-            'cls': cls}
-    winner_kind = kinds[0]
-    ctx.case(('A', mask, tuple(kinds), pad, variant, cls),
-             len(members) > 1 or winner_kind != 'plain')
-    C = classes()
-    rec = Recorder()
-    rz = U.Realizer(rec, C['HTML'])
-    scopes = {}
-    for s, k in zip(members, kinds):
-        scopes[s] = {'n': value_spec(s, k), 'q': U.Plain('Q:' + s), 'd': U.Plain('D:' + s)}
-    if pad:
-        for s in SOURCES:
-            if s not in scopes:
-                scopes[s] = {'zz': U.Plain('zz:' + s)}
-    ast = ast_a(cls)
-    # ---- model: the documented priority list, lowest first
-    model = U.Model()
-    stack = []
-    if cls == 'H':
-        stack.append({'seen': U.Helper('seen')})
-    for s in reversed(SOURCES):
-        if s in scopes:
-            stack.append(scopes[s])
-    exp = model.render(ast, stack)
-    # ---- engine
-    src = U.to_dtml(ast, 'epfs' if cls == 'String' else 'html')
-    real = dict((s, rz.real_scope(sc)) for s, sc in scopes.items())
-    if cls == 'H':
-        C['H'].shared_globals.clear()
-        C['H'].shared_globals['seen'] = rz.seen
-    cmap = real.get('ctor_map')
-    if cmap is not None and variant & 1:
-        cmap = U.CustomMapping(cmap)
-    try:
-        t = C[cls](src, cmap, **real.get('ctor_kw', {}))
-        if 'vars' in real:
-            if variant & 8:
-                t._vars.update(real['vars'])      # the attribute itself
-            else:
-                t.var(**real['vars'])             # the documented setter
+class Session:
+    """One template object rendered one or more times, with a model that persists across
+    the calls (call counters of ctor / template-variable callables continue)."""
+
+    CALL_SOURCES = ('kw', 'client_last', 'client_first', 'mapping')
+
+    def __init__(self, cls, ast, ctor_scopes, variant):
+        C = classes()
+        self.cls = cls
+        self.ast = ast
+        self.variant = variant
+        self.rec = Recorder()
+        self.rz = U.Realizer(self.rec, C['HTML'])
+        self.model = U.Model()
+        self.ctor_scopes = ctor_scopes                # {'ctor_kw': scope, 'ctor_map': scope}
+        self.vars_scope = {}
+        self.src = U.to_dtml(ast, 'epfs' if cls == 'String' else 'html')
+        real = dict((s, self.rz.real_scope(sc)) for s, sc in ctor_scopes.items())
+        cmap = real.get('ctor_map')
+        self.exp_globals = dict(real.get('ctor_kw', {}))
+        for k, v in (cmap or {}).items():
+            self.exp_globals.setdefault(k, v)
+        if cmap is not None and variant & 1:
+            cmap = U.CustomMapping(cmap)
+        self.t = C[cls](self.src, cmap, **real.get('ctor_kw', {}))
+        self.exp_vars = {}
+        self.shape = None
+        self.calls_made = 0
+
+    def set_vars(self, scope):
+        """Set template variables (documented setter, or the attribute itself)."""
+        self.vars_scope.update(scope)
+        real = self.rz.real_scope(scope)
+        if self.variant & 8:
+            self.t._vars.update(real)
+        else:
+            self.t.var(**real)
+        self.exp_vars.update(real)
+
+    def call(self, scopes):
+        """scopes: {source: scope} for the call-level sources.  -> (exp, out, problems);
+        out is None when the engine raised (problems says how)."""
+        C = classes()
+        rz, model = self.rz, self.model
+        model.trace = []
+        self.rec.clear()
+        stack = []
+        if self.cls == 'H':
+            stack.append({'seen': U.Helper('seen')})
+        for s in ('ctor_map', 'ctor_kw'):
+            if s in self.ctor_scopes:
+                stack.append(self.ctor_scopes[s])
+        for s in ('mapping', 'client_first', 'client_last'):
+            if s in scopes:
+                stack.append(scopes[s])
+        if self.vars_scope:
+            stack.append(self.vars_scope)
+        if 'kw' in scopes:
+            stack.append(scopes['kw'])
+        exp = model.render(self.ast, stack)
+        variant = self.variant
         first = last = None
         if 'client_first' in scopes:
             first = rz.real(U.Obj('client_first', scopes['client_first']))
         if 'client_last' in scopes:
             last = rz.real(U.Obj('client_last', scopes['client_last']))
         if first is not None and last is not None:
-            client = (first, last)
-            shape = 'tuple(first,last)'
+            client, shape = (first, last), 'tuple(first,last)'
         elif last is not None:
             client, shape = (last, 'bare') if variant & 2 else ((last,), 'tuple(last)')
         elif first is not None:
@@ -165,41 +201,220 @@ def run_a(ctx, mask, kinds, pad, variant, cls, tag='grid'):
                 client, shape = (first,), 'tuple(first)'
         else:
             client, shape = None, 'none'
-        mapping = real.get('mapping')
-        if mapping is None:
+        self.shape = shape
+        inner = rz.real_scope(scopes['mapping']) if 'mapping' in scopes else None
+        if inner is None:
             mapping = {} if variant & 4 else None
         elif variant & 1:
-            mapping = U.CustomMapping(mapping)
-        out = t(client, mapping, **real.get('kw', {}))
-    except Exception as e:
-        ctx.violation('render raised %s: %s (expected %s)'
-                      % (type(e).__name__, short(str(e), 120), short(U.segments_text(exp), 200)),
-                      case, key='A_raise_%d_%s' % (mask, '-'.join(kinds)))
-        return
-    finally:
-        if cls == 'H':
+            mapping = U.CustomMapping(inner)
+        else:
+            mapping = inner
+        kw = rz.real_scope(scopes['kw']) if 'kw' in scopes else {}
+        snap_map = dict(inner) if inner is not None else None
+        snap_clients = [(o, dict(o.__dict__)) for o in (first, last) if o is not None]
+        if self.cls == 'H':
             C['H'].shared_globals.clear()
-    ctx.count('A:renders')
-    ctx.count('A:renders class ' + cls)
-    ctx.table('A subsets rendered', '%03d' % mask)
-    ctx.table('A winner source x kind', '%s/%s' % (members[0], winner_kind))
-    ctx.table('A client shape', shape)
-    ctx.table('A defining sources', len(members))
+            C['H'].shared_globals['seen'] = rz.seen
+        self.calls_made += 1
+        try:
+            out = self.t(client, mapping, **kw)
+        except Exception as e:
+            return exp, None, ['render raised %s: %s (expected %s)'
+                               % (type(e).__name__, short(str(e), 120),
+                                  short(U.segments_text(exp), 200))]
+        finally:
+            if self.cls == 'H':
+                C['H'].shared_globals.clear()
+        problems = compare(exp, model.trace, out, self.rec)
+        # the call must leave every source as it found it
+        if not same_dict(self.t._vars, self.exp_vars):
+            problems.append('template variables changed by the call: now %s, were %s'
+                            % (sorted(self.t._vars), sorted(self.exp_vars)))
+        if not same_dict(self.t.globals, self.exp_globals):
+            problems.append('construction defaults changed by the call: now %s, were %s'
+                            % (sorted(self.t.globals), sorted(self.exp_globals)))
+        if snap_map is not None and not same_dict(inner, snap_map):
+            problems.append("the caller's mapping was changed by the call: now %s, was %s"
+                            % (sorted(inner), sorted(snap_map)))
+        for o, snap in snap_clients:
+            if not same_dict(o.__dict__, snap):
+                problems.append('client object %s changed by the call' % o)
+        return exp, out, problems
+
+
+def same_dict(a, b):
+    if len(a) != len(b):
+        return False
+    for k, v in b.items():
+        if k not in a or a[k] is not v:
+            return False
+    return True
+
+
+def source_scope(s, kind, tag=''):
+    st = s + tag
+    return {'n': value_spec(st, kind), 'q': U.Plain('Q:' + st), 'd': U.Plain('D:' + st)}
+
+
+def run_a(ctx, mask, kinds, pad, variant, cls, tag='grid'):
+    """One precedence configuration.  kinds: one kind per defining source (priority order).
+    The template object is then called again with the top call-level source dropped and
+    once more with the full configuration (precedence must not depend on earlier calls)."""
+    members = [s for i, s in enumerate(SOURCES) if mask >> i & 1]
+    case = {'part': 'A', 'mask': mask, 'kinds': list(kinds), 'pad': pad, 'variant': variant,
+            'cls': cls}
+    winner_kind = kinds[0]
+    ctx.case(('A', mask, tuple(kinds), pad, variant, cls),
+             len(members) > 1 or winner_kind != 'plain')
+    scopes = {}
+    for s, k in zip(members, kinds):
+        scopes[s] = source_scope(s, k)
+    if pad:
+        for s in SOURCES:
+            if s not in scopes:
+                scopes[s] = {'zz': U.Plain('zz:' + s)}
+    sess = Session(cls, ast_a(cls), dict((s, scopes[s]) for s in ('ctor_kw', 'ctor_map') if s in scopes),
+                   variant)
+    if 'vars' in scopes:
+        sess.set_vars(scopes['vars'])
+    full = dict((s, scopes[s]) for s in Session.CALL_SOURCES if s in scopes)
+    steps = [('first', full)]
+    # follow-up calls on the same template object
+    droppable = [s for s in Session.CALL_SOURCES if s in full]
+    if droppable and any(s in members and s != droppable[0] for s in SOURCES):
+        reduced = dict(full)
+        del reduced[droppable[0]]
+        steps.append(('without ' + droppable[0], reduced))
+        steps.append(('again', full))
+    elif tag != 'seeded':
+        steps.append(('again', full))
+    for label, call_scopes in steps:
+        exp, out, problems = sess.call(call_scopes)
+        if label == 'first':
+            ctx.count('A:renders')
+            ctx.count('A:renders class ' + cls)
+            ctx.table('A subsets rendered', '%03d' % mask)
+            ctx.table('A winner source x kind', '%s/%s' % (members[0], winner_kind))
+            ctx.table('A client shape', sess.shape)
+            ctx.table('A defining sources', len(members))
+        else:
+            ctx.count('A:follow-up calls on the same template object')
+        ctx.count('A:source-unchanged checks')
+        if problems:
+            ctx.violation('%s call: %s' % (label, '; '.join(problems)), dict(case, step=label),
+                          key='A_%d_%s_%s' % (mask, '-'.join(kinds), cls),
+                          detail={'source': sess.src, 'expected': U.segments_text(exp),
+                                  'observed': short(out, 1500) if out is not None else None,
+                                  'expected_calls': sess.model.trace,
+                                  'observed_calls': sess.rec.calls(), 'sources': members})
+            break
+        if (label == 'first' and ctx.shard % 2 == 0 and not ctx.samples and cls == 'H'
+                and len(members) >= 3 and kinds[0] in ('call', 'tmpl') and len(set(kinds)) > 1):
+            ctx.sample({'part': 'A', 'sources': members, 'kinds': list(kinds),
+                        'template': sess.src, 'output': out, 'calls': sess.rec.calls()})
+    model = sess.model
     for f, n in model.probes.items():
         ctx.count('A:probes ' + f, n)
     ctx.count('A:sub-template invocations', model.subcalls)
     ctx.count('A:lookups shadowing a lower source', model.shadowed)
-    problems = compare(exp, model.trace, out, rec)
-    if problems:
-        ctx.violation('; '.join(problems), case,
-                      key='A_%d_%s_%s' % (mask, '-'.join(kinds), cls),
-                      detail={'source': src, 'expected': U.segments_text(exp),
-                              'observed': short(out, 1500), 'expected_calls': model.trace,
-                              'observed_calls': rec.calls(), 'sources': members})
-    if (ctx.shard % 2 == 0 and not ctx.samples and cls == 'H' and len(members) >= 3
-            and kinds[0] in ('call', 'tmpl') and len(set(kinds)) > 1):
-        ctx.sample({'part': 'A', 'sources': members, 'kinds': list(kinds), 'template': src,
-                    'output': out, 'calls': rec.calls()})
+
+
+# ------------------------------------------------------------------ part H: call histories
+def run_h(ctx, hist):
+    """hist (JSON-able): {'cls', 'variant', 'ctor': {src: kind}, 'steps': [step]};
+    step = {'vars': None | 'bystander' | kind, 'call': {src: kind}}.  Every value token
+    carries the step number, so a value surviving from an earlier call is visible."""
+    ctx.case(('H', repr(hist)), True)
+    ctor = dict((s, source_scope(s, k)) for s, k in hist['ctor'].items())
+    ast = ast_a('H') + [U.Text('W'), U.Probe('miss', 'w')]
+    sess = Session(hist['cls'], ast if hist['cls'] == 'H' else ast_a(hist['cls']) +
+                   [U.Text('W'), U.Probe('miss', 'w')], ctor, hist['variant'])
+    ctx.count('H:histories')
+    for i, step in enumerate(hist['steps']):
+        tag = '@%d' % i
+        v = step.get('vars')
+        if v == 'bystander':
+            sess.set_vars({'w': U.Plain('w:vars' + tag)})
+            ctx.count('H:var() between calls (bystander name)')
+        elif v:
+            sess.set_vars(source_scope('vars', v, tag))
+            ctx.count('H:var() between calls (probed name)')
+        call_scopes = dict((s, source_scope(s, k, tag)) for s, k in step['call'].items())
+        exp, out, problems = sess.call(call_scopes)
+        ctx.count('H:calls')
+        ctx.table('H call position', i)
+        if i and 'kw' in hist['steps'][i - 1]['call'] and 'kw' not in step['call']:
+            ctx.count('H:calls without keywords after a call with keywords')
+        if problems:
+            ctx.violation('call %d of a history on one template object: %s'
+                          % (i + 1, '; '.join(problems)), {'part': 'H', 'hist': hist},
+                          key='H_%s_%d' % ('-'.join(sorted(step['call'])) or 'none', i),
+                          detail={'source': sess.src, 'step': i,
+                                  'expected': U.segments_text(exp),
+                                  'observed': short(out, 1500) if out is not None else None,
+                                  'expected_calls': sess.model.trace,
+                                  'observed_calls': sess.rec.calls()})
+            return
+    for f, n in sess.model.probes.items():
+        ctx.count('H:probes ' + f, n)
+
+
+def configs_h(tier):
+    """Systematic histories: every ordered pair (S1, S2) of call-level source subsets, rendered
+    as S1, S2, S1 on one template object, x construction sources x template-variable mode."""
+    out = []
+    call_sources = list(Session.CALL_SOURCES)
+    subsets = [[s for j, s in enumerate(call_sources) if m >> j & 1] for m in range(16)]
+    ctor_parts = [[], ['ctor_kw'], ['ctor_map'], ['ctor_kw', 'ctor_map']]
+    vmodes = ['none', 'bystander', 'before', 'between']
+    kind_rot = KINDS3 + ['fret']
+    i = 0
+    for cp in ctor_parts:
+        for vm in vmodes:
+            for s1 in subsets:
+                for s2 in subsets:
+                    i += 1
+                    krange = range(4) if tier == 'thorough' else [i % 4]
+                    for kr in krange:
+                        kind = lambda j: kind_rot[(kr + j) % 4]   # noqa: E731
+                        ctor = dict((s, kind(j)) for j, s in enumerate(cp))
+                        steps = []
+                        vdef = False
+                        for pos, ss in enumerate((s1, s2, s1)):
+                            v = None
+                            if pos == 0 and vm == 'bystander':
+                                v = 'bystander'
+                            if (pos == 0 and vm == 'before') or (pos == 1 and vm == 'between'):
+                                v = kind(pos + 1)
+                                vdef = True
+                            call = dict((s, kind(j + pos)) for j, s in enumerate(ss))
+                            if not (ctor or vdef or call):
+                                call = {'mapping': kind(pos)}
+                            steps.append({'vars': v, 'call': call})
+                        out.append({'cls': 'H' if i % 5 else 'HTML', 'variant': i % 16,
+                                    'ctor': ctor, 'steps': steps})
+    return out
+
+
+def random_history(rng):
+    allk = KINDS3 + FALSY
+    ctor = dict((s, rng.choice(allk)) for s in ('ctor_kw', 'ctor_map') if rng.random() < 0.5)
+    steps = []
+    vdef = False
+    for pos in range(rng.randint(3, 8)):
+        v = None
+        r = rng.random()
+        if r < 0.15:
+            v = 'bystander'
+        elif r < 0.35:
+            v = rng.choice(allk)
+            vdef = True
+        call = dict((s, rng.choice(allk)) for s in Session.CALL_SOURCES if rng.random() < 0.45)
+        if not (ctor or vdef or call):
+            call = {rng.choice(Session.CALL_SOURCES): rng.choice(allk)}
+        steps.append({'vars': v, 'call': call})
+    return {'cls': rng.choice(['H', 'H', 'HTML']), 'variant': rng.randint(0, 15),
+            'ctor': ctor, 'steps': steps}
 
 
 def compare(exp, exp_trace, out, rec):
@@ -277,8 +492,15 @@ def nest_value(level, label, vk, depth):
     return U.Tmpl(name, ast)
 
 
-def build_nest(kinds, vk):
-    """-> (ast, base scope dict of specs).  Level L (1-based) uses kinds[L-1]."""
+def build_nest(kinds, vk, exc=None):
+    """-> (ast, base scope dict of specs).  Level L (1-based) uses kinds[L-1].
+
+    exc = None, or (j, raiser): the body of the innermost block ends by raising -- raiser
+    'boom': a callable called by name; 'rsub': a sub-template with its own defaults and
+    variables, invoked by name, that raises while it renders -- and a dtml-try is wrapped
+    around the block of level j (j == depth+1: around the raising tag itself).  The handler
+    holds a probe group and the usual groups follow after the handler and after every
+    enclosing block: whatever the unwound blocks / sub-template bound must be gone."""
     D = len(kinds)
     P, T = U.Probe, U.Text
     base = {'n': nest_value(0, 'base', vk, D), 'seen': U.Helper('seen')}
@@ -290,6 +512,13 @@ def build_nest(kinds, vk):
     base['sub'] = U.Tmpl('sub', sub_ast, {'own': U.Plain('sub-own')})
     base['subn'] = U.Tmpl('subn', [T('{subn|'), P('name', 'n', True), P('miss', 'own', True), T('}')],
                           {'n': U.Plain('subn-n')})
+    if exc:
+        base['boomX'] = U.Raiser('boomX', 'XError', 'boom-x')
+        base['rsub'] = U.Tmpl('rsub', [T('{rsub|'), P('name', 'n', True), P('name', 'own2', True),
+                                       P('name', 'rv', True), P('name', 'subn', True),
+                                       P('call', 'boomX'), T('unreached}')],
+                              {'n': U.Plain('rsub-n'), 'own2': U.Plain('rsub-own2')},
+                              {'rv': U.Plain('rsub-rv')})
 
     def point(tag, cur):
         """Probe group at a point enclosed by levels 1..cur."""
@@ -303,13 +532,17 @@ def build_nest(kinds, vk):
             # where hiding of outer names is not asserted)
             ps.append(U.If('error_tb', [T('+tb')], [T('-tb')]))
         for lv in range(1, D + 1):
-            if kinds[lv - 1] == 'if':
+            if kinds[lv - 1] in IFLIKE:
                 # inside a `with only` nested in this if-block the cached condition is an
                 # outer name: whether it is hidden there is not asserted -> no probe
                 hidden = lv <= cur and any(kinds[m - 1] == 'only' for m in range(lv + 1, cur + 1))
                 if not hidden:
                     ps.append(P('name', 'c%d' % lv))
+                    if kinds[lv - 1] == 'elif':
+                        ps.append(P('name', 'e%d' % lv))
         ps += [P('name', 'sub'), P('name', 'subn'), P('miss', 'own')]
+        if exc:
+            ps += [P('miss', 'own2'), P('miss', 'rv')]
         return ps
 
     subjects = {}
@@ -336,6 +569,11 @@ def build_nest(kinds, vk):
             subjects['src%d' % lv] = nest_value(lv, k, vk, D)
         elif k == 'if':
             subjects['c%d' % lv] = U.Call('c%d' % lv)
+        elif k in ('ifelse', 'unless'):
+            subjects['c%d' % lv] = U.Call('c%d' % lv, ret='falsy')
+        elif k == 'elif':
+            subjects['c%d' % lv] = U.Call('c%d' % lv, ret='falsy')
+            subjects['e%d' % lv] = U.Call('e%d' % lv)
         elif k == 'try':
             subjects['boom%d' % lv] = U.Raiser('boom%d' % lv, 'L%dError' % lv, 'boom-%d' % lv)
         else:
@@ -348,40 +586,60 @@ def build_nest(kinds, vk):
             if name != 'n' and spec is not o and name not in o.attrs:
                 o.attrs[name] = spec
 
+    def raising():
+        j, raiser = exc
+        node = P('call', 'boomX') if raiser == 'boom' else P('name', 'rsub')
+        if j == D + 1:
+            return [U.Try([T('discarded'), node, T('unreached')], point('!%d:' % j, D))] + point('~%d:' % D, D)
+        return [node, T('unreached')]
+
     def level(lv):
         k = kinds[lv - 1]
         body = point('<%d:' % lv, lv)
         if lv < D:
             body += level(lv + 1)
         body += point('|%d>' % lv, lv)
+        if exc and lv == D:
+            body += raising()
         b = 'b%d' % lv
+        c = 'c%d' % lv
         if k in ('in', 'inmap'):
-            return [U.In('seq%d' % lv, k == 'inmap', body)]
-        if k == 'with':
-            return [U.With('obj%d' % lv, 'inst', body)]
-        if k == 'only':
-            return [U.With('obj%d' % lv, 'only', body)]
-        if k == 'withmap':
-            return [U.With('map%d' % lv, 'mapping', body)]
-        if k == 'let':
-            return [U.Let([('n', 'name', 'src%d' % lv), (b, 'name', 'n')], body)]
-        if k == 'letx':
-            return [U.Let([('n', 'expr', 'src%d' % lv), (b, 'name', 'n')], body)]
-        if k == 'if':
-            return [U.If('c%d' % lv, body, [T('ELSE')])]
-        if k == 'try':
-            return [U.Try([T('discarded'), P('call', 'boom%d' % lv), T('unreached')], body)]
-        raise ValueError(k)
+            blk = [U.In('seq%d' % lv, k == 'inmap', body)]
+        elif k == 'with':
+            blk = [U.With('obj%d' % lv, 'inst', body)]
+        elif k == 'only':
+            blk = [U.With('obj%d' % lv, 'only', body)]
+        elif k == 'withmap':
+            blk = [U.With('map%d' % lv, 'mapping', body)]
+        elif k == 'let':
+            blk = [U.Let([('n', 'name', 'src%d' % lv), (b, 'name', 'n')], body)]
+        elif k == 'letx':
+            blk = [U.Let([('n', 'expr', 'src%d' % lv), (b, 'name', 'n')], body)]
+        elif k == 'if':
+            blk = [U.If(c, body, [T('ELSE')])]
+        elif k == 'ifelse':
+            blk = [U.If(c, [T('THEN')], body)]
+        elif k == 'elif':
+            blk = [U.If(c, [T('THEN')], [T('ELSE')], elifs=[('e%d' % lv, body)])]
+        elif k == 'unless':
+            blk = [U.Unless(c, body)]
+        elif k == 'try':
+            blk = [U.Try([T('discarded'), P('call', 'boom%d' % lv), T('unreached')], body)]
+        else:
+            raise ValueError(k)
+        if exc and exc[0] == lv:
+            blk = [U.Try([T('discarded')] + blk + [T('unreached')], point('!%d:' % lv, lv - 1))]
+        return blk
 
     ast = point('^:', 0) + level(1) + point('$:', 0)
     return ast, base
 
 
-def run_b(ctx, kinds, vk, bs):
-    case = {'part': 'B', 'kinds': list(kinds), 'vk': vk, 'bs': bs}
-    ctx.case(('B', tuple(kinds), vk, bs), True)
+def run_b(ctx, kinds, vk, bs, exc=None):
+    case = {'part': 'B', 'kinds': list(kinds), 'vk': vk, 'bs': bs, 'exc': list(exc) if exc else None}
+    ctx.case(('B', tuple(kinds), vk, bs, exc), True)
     C = classes()
-    ast, base = build_nest(kinds, vk)
+    ast, base = build_nest(kinds, vk, exc)
     loser = {'n': U.Plain('n@loser')} if bs != 'ctor_map' else None
     model = U.Model()
     stack = [loser, base] if loser else [base]
@@ -389,6 +647,7 @@ def run_b(ctx, kinds, vk, bs):
     rec = Recorder()
     rz = U.Realizer(rec, C['HTML'])
     src = U.to_dtml(ast)
+    xk = '%s@%d' % (exc[1], exc[0]) if exc else 'none'
     try:
         rb = rz.real_scope(base)
         rl = rz.real_scope(loser) if loser else None
@@ -411,17 +670,22 @@ def run_b(ctx, kinds, vk, bs):
             out = t()
     except Exception as e:
         ctx.violation('render raised %s: %s' % (type(e).__name__, short(str(e), 160)), case,
-                      key='B_raise_%s_%s_%s' % ('-'.join(kinds), vk, bs),
+                      key='B_raise_%s_%s_%s_%s' % ('-'.join(kinds), vk, bs, xk),
                       detail={'source': src, 'expected': U.segments_text(exp)})
         return
     ctx.count('B:renders')
     ctx.table('B nest depth', len(kinds))
     for lv, k in enumerate(kinds):
         ctx.table('B block kind at depth', '%s@%d' % (k, lv + 1))
+        if exc and exc[0] <= lv + 1:
+            ctx.table('B block kind unwound by an exception (raiser)', '%s/%s' % (k, exc[1]))
     for a, b in zip(kinds, kinds[1:]):
         ctx.table('B kind directly inside kind', '%s>%s' % (a, b))
     ctx.table('B bound value kind', vk)
     ctx.table('B base namespace source', bs)
+    ctx.table('B exception mode (raiser@try level)', xk)
+    if exc:
+        ctx.count('B:renders with a block or sub-template left by an exception')
     for f, n in model.probes.items():
         ctx.count('B:probes ' + f, n)
     ctx.count('B:sub-template invocations', model.subcalls)
@@ -431,12 +695,13 @@ def run_b(ctx, kinds, vk, bs):
     problems = compare(exp, model.trace, out, rec)
     if problems:
         ctx.violation('; '.join(problems), case,
-                      key='B_%s_%s_%s' % ('-'.join(kinds), vk, bs),
+                      key='B_%s_%s_%s_%s' % ('-'.join(kinds), vk, bs, xk),
                       detail={'source': src, 'expected': U.segments_text(exp),
                               'observed': short(out, 3000), 'expected_calls': model.trace[:60],
                               'observed_calls': rec.calls()[:60]})
     if ctx.shard % 2 == 1 and not ctx.samples and len(kinds) == 2 and len(set(kinds)) == 2:
         ctx.sample({'part': 'B', 'nest': list(kinds), 'value_kind': vk, 'base_source': bs,
+                    'exception': xk,
                     'template': short(src, 1200), 'output': short(out, 1500),
                     'expected': short(U.segments_text(exp), 1500), 'calls': rec.calls()[:40]})
 
@@ -450,11 +715,19 @@ def configs_b(tier):
             for vk in KINDS3:
                 i += 1
                 if tier == 'thorough':
-                    sources = BASE_SOURCES
+                    sources = BASE_SOURCES if d < 3 else [BASE_SOURCES[i % 6], BASE_SOURCES[(i + 3) % 6]]
                 else:
                     sources = [BASE_SOURCES[i % 6]] if d == 2 else BASE_SOURCES
                 for bs in sources:
-                    out.append((kinds, vk, bs))
+                    out.append((kinds, vk, bs, None))
+                # exception modes: try around level j (d+1: around the raising tag), two raisers
+                x = 0
+                for j in range(1, d + 2):
+                    for raiser in ('boom', 'rsub'):
+                        x += 1
+                        if tier == 'thorough' and d == 3 and (i + x) % 2:
+                            continue
+                        out.append((kinds, vk, BASE_SOURCES[(i + x) % 6], (j, raiser)))
     return out
 
 
@@ -495,6 +768,12 @@ def run(ctx, spec):
             ctx.count('A:seeded mixed assignments')
             run_a(ctx, mask, kinds, rng.randint(0, 1), rng.randint(0, 15),
                   rng.choice(['H', 'H', 'HTML']), 'seeded')
+        for i, hist in enumerate(configs_h(ctx.tier)):
+            if i % ctx.nshards == ctx.shard:
+                run_h(ctx, hist)
+        for _ in range((480 if ctx.tier == 'quick' else 16000) // ctx.nshards):
+            ctx.count('H:seeded histories')
+            run_h(ctx, random_history(rng))
         for i, cfg in enumerate(configs_b(ctx.tier)):
             if i % ctx.nshards == ctx.shard:
                 run_b(ctx, *cfg)
@@ -519,7 +798,11 @@ def finish(agg):
               'B:probes name', 'B:probes entity', 'B:probes expr', 'B:probes miss',
               'A:sub-template invocations', 'B:sub-template invocations',
               'A:lookups shadowing a lower source', 'B:lookups shadowing an outer binding',
-              'B:calls expected'):
+              'B:calls expected', 'A:follow-up calls on the same template object',
+              'A:source-unchanged checks', 'H:calls',
+              'H:calls without keywords after a call with keywords',
+              'H:var() between calls (probed name)', 'H:var() between calls (bystander name)',
+              'B:renders with a block or sub-template left by an exception'):
         if not c.get(k):
             inc.append('monitor never evaluated: ' + k)
     maxd = 2 if agg['tier'] == 'quick' else 3
@@ -528,6 +811,11 @@ def finish(agg):
         for k in NEST_KINDS:
             if not kd.get('%s@%d' % (k, d)):
                 inc.append('block kind %s never rendered at depth %d' % (k, d))
+    unw = t.get('B block kind unwound by an exception (raiser)', {})
+    for k in NEST_KINDS:
+        for r in ('boom', 'rsub'):
+            if not unw.get('%s/%s' % (k, r)):
+                inc.append('block kind %s never left through an exception raised by %s' % (k, r))
     wk = t.get('A winner source x kind', {})
     for s in SOURCES:
         for k in KINDS3 + FALSY:
@@ -536,8 +824,8 @@ def finish(agg):
     return {'inconclusive': inc,
             'coverage': {'exhaustive': True,
                          'explanation': 'exhaustive: 127 subsets x 3^|S| kind assignments (16383), '
-                                        'falsy winners, all nests of 9 block kinds to depth %d x 3 '
-                                        'value kinds; seeded: mixed 7-kind assignments' % maxd,
+                                        'falsy winners, S1,S2,S1 call histories, all nests of 12 block kinds to depth %d x 3 '
+                                        'value kinds x exception modes; seeded: mixed 8-kind assignments, long histories' % maxd,
                          'subsets_rendered': len(subsets),
                          'nest_kinds': NEST_KINDS, 'design_kinds': DESIGN_KINDS}}
 
@@ -552,5 +840,7 @@ def replay(ctx, rep):
     c = rep['case']
     if c['part'] == 'A':
         run_a(ctx, c['mask'], tuple(c['kinds']), c['pad'], c['variant'], c['cls'], 'replay')
+    elif c['part'] == 'H':
+        run_h(ctx, c['hist'])
     else:
-        run_b(ctx, tuple(c['kinds']), c['vk'], c['bs'])
+        run_b(ctx, tuple(c['kinds']), c['vk'], c['bs'], tuple(c['exc']) if c.get('exc') else None)
